@@ -45,7 +45,7 @@ def closure_reaches(P, func_text, pred):
 def lck1_flush_critical_section(ctx, with_reset=True):
     ctx.rule('LCK-1', 'flush: reading the unflushed range, freezing every table buffer, resetting '
                       'the log-size counter and notifying happen in one critical section of the '
-                      'ingestion lock', floor=4)
+                      'ingestion lock', floor=3)
     if with_reset:
         ctx.rule('FLW-13', 'flush resets the accounted log size to 0 under the ingestion lock and '
                            'notifies the waiting ingesters', floor=2)
@@ -123,7 +123,7 @@ def lck1_flush_critical_section(ctx, with_reset=True):
 def lck2_ingest_critical_section(ctx):
     ctx.rule('LCK-2', 'ingestion: starting the log write, applying the batch to the table buffers '
                       'and joining the log write happen in one critical section of the ingestion '
-                      'lock', floor=3)
+                      'lock', floor=4)
     P = ctx.P
     lm = lockmodel(ctx)
     sites0 = list(P.call_sites(lambda f: norm_callee(f) == S + 'persist_wal_segment'))
